@@ -12,52 +12,39 @@ let show_view (v : view) body =
   Printf.sprintf "OK M=%s;S=%s;P=%s;Q=%s;CT=%s;CL=%d;E=%s;G=%s;O=%s;B=%s"
     (b v.v_method) (b v.v_script) (b v.v_path_info) (b v.v_query) (b v.v_ctype) (int_of_z v.v_clen)
     (pairs v.v_env) (pairs (parse_form v.v_query)) (pairs post) (b body)
-let cl_limit = 1024 * 1024
-let rec http_conn first (chunks : n list list) acc =
-  match hread pst0 hreq0 N0 chunks with
-  | CNeedMore -> List.rev ((if first || chunks <> [] then "NEEDMORE" else "END") :: acc)
-  | CError -> List.rev ("ERR" :: acc)
-  | COutOfFuel -> List.rev ("FUEL" :: acc)
-  | CDone (r, rest, unread) ->
-    (match process_request script_names r with
-     | PBad400 -> List.rev ("BAD400" :: acc)
-     | POk v ->
-       let cl = int_of_z v.v_clen in
-       if cl < 0 then List.rev ("NEG400" :: acc)
-       else if cl > cl_limit then List.rev ("BIG413" :: acc)
-       else begin
-         let avail = rest @ List.concat unread in
-         if List.length avail < cl then List.rev ("NEEDBODY" :: acc)
-         else begin
-           let body = take cl avail in
-           let left = drop cl avail in
-           let item = show_view v body in
-           (* what is left stays in the buffer of the kept-alive connection as one chunk *)
-           if left = [] then List.rev (item :: acc) else http_conn false [left] (item :: acc)
-         end
-       end)
+let cl_limit_i = 1024 * 1024
+let rec nat_of_int n = if n <= 0 then O else S (nat_of_int (n - 1))
+(* the whole connection is the extracted Conn.http_conn (chunk-level; Props.v: equal to the stream-level http_stream) *)
+let show_item = function
+  | IReq (v, body) -> show_view v body
+  | IBad400 -> "BAD400" | INeg400 -> "NEG400" | IBig413 -> "BIG413" | IErr -> "ERR"
+  | INeedMore -> "NEEDMORE" | INeedBody -> "NEEDBODY" | IOverCap -> "OVERCAP" | IFuel -> "FUEL"
+let http_conn_items (chunks : n list list) =
+  let total = List.fold_left (fun a c -> a + List.length c) 0 chunks in
+  List.map show_item (http_conn (nat_of_int (total + 1)) script_names chunks)
 (* steps of the harness line syntax: S:<hex> / s:<hex> are the segments, everything else is ignored *)
 let segs steps = List.filter_map (fun s -> if String.length s >= 2 && (s.[0] = 'S' || s.[0] = 's') && s.[1] = ':' then Some (String.sub s 2 (String.length s - 2)) else None) steps
-let cat steps = let l = List.filter (fun h -> h <> "-") (segs steps) in if l = [] then "-" else String.concat "" l
-let () = main_loop (fun line -> match (match line with p :: steps when p = "scgi" || p = "fcgi" -> [p; cat steps] | "http" :: steps -> "http" :: segs steps | l -> l) with
-  | "http" :: chunks -> String.concat " | " (http_conn true (List.filter (fun c -> c <> []) (List.map bytes_of_hex chunks)) [])
-  | ["scgi"; h] ->
-    (match scgi_decode (bytes_of_hex h) with
-     | SNeedMore -> "NEEDMORE" | SError -> "ERR"
-     | SOk (e, rest) ->
+let chunks_of steps = List.filter (fun c -> c <> []) (List.map bytes_of_hex (segs steps))
+(* SCGI and FastCGI run the chunk-level readers (Chunked.v) on the real segments; Props.v proves them equal to the
+   stream-level decoders on the concatenation *)
+let () = main_loop (fun line -> match line with
+  | "http" :: steps -> String.concat " | " (http_conn_items (chunks_of steps))
+  | "scgi" :: steps ->
+    (match scgi_decode_c (cache_of (chunks_of steps)) with
+     | ScNeedMore -> "NEEDMORE" | ScError -> "ERR"
+     | ScOk (e, c) ->
+       let rest = stream_of c in
        let v = view_of_env e in
        let cl = int_of_z v.v_clen in
-       if cl < 0 then "NEG400" else if cl > cl_limit then "BIG413"
+       if cl < 0 then "NEG400" else if cl > cl_limit_i then "BIG413"
        else if List.length rest < cl then "NEEDBODY" else show_view v (take cl rest))
-  | ["fcgi"; h] ->
-    let rec go s acc =
-      match fcgi_decode s with
-      | FNeedMore -> List.rev ((if acc = [] || s <> [] then "NEEDMORE" else "END") :: acc)
-      | FError -> List.rev ("ERR" :: acc)
-      | FOther -> List.rev ("OTHER" :: acc)
-      | FOk (keep, e, body, rest) ->
+  | "fcgi" :: steps ->
+    let chunks = chunks_of steps in
+    let total = List.fold_left (fun a c -> a + List.length c) 0 chunks in
+    let show = function
+      | FIReq (_, e, body) ->
         let v = view_of_env e in
-        let item = if int_of_z v.v_clen < 0 then "NEG400" else if int_of_z v.v_clen > cl_limit then "BIG413" else show_view v body in
-        if keep && rest <> [] then go rest (item :: acc) else List.rev (item :: acc) in
-    String.concat " | " (go (bytes_of_hex h) [])
+        if int_of_z v.v_clen < 0 then "NEG400" else if int_of_z v.v_clen > cl_limit_i then "BIG413" else show_view v body
+      | FIErr -> "ERR" | FIOther -> "OTHER" | FINeedMore -> "NEEDMORE" | FIFuel -> "FUEL" in
+    String.concat " | " (List.map show (fcgi_conn_c (nat_of_int (total / 8 + 2)) (cache_of chunks)))
   | _ -> "BAD-CASE")
